@@ -50,7 +50,7 @@ PROFILES = {
         "ext": "html", "render": lambda doc, **kw: simple.render_html(doc, **kw),
         "features": FLOW_INLINE | {"run.ins", "run.comment-ref", "container.sdt.inline", "para.heading", "list.flat", "list.nested", "table.simple", "table.multi-para-cell",
                                    "table.nested", "table.empty-cell", "table.header-rows", "table.ragged", "container.section", "container.group", "excluded.header-footer", "excluded.comment"},
-        "table_text_in_full_text": True, "unit_kind": "single", "max_units": 1, "opts": {"inline_removed": [False, False, "script", "style", "noscript"], "charset": [None, None, "windows-1252", "iso-8859-2", "iso-8859-15"], "late_meta": [False, True]},
+        "table_text_in_full_text": True, "unit_kind": "single", "max_units": 1, "opts": {"inline_removed": [False, False, "script", "style", "noscript"], "charset": [None, None, "windows-1252", "iso-8859-2", "iso-8859-15"], "late_meta": [False, True], "run_space": [False, True]},
     },
     "mhtml": {
         "ext": "mhtml", "render": lambda doc, **kw: simple.render_mhtml(doc, **kw),
@@ -63,7 +63,7 @@ PROFILES = {
         "features": FLOW_INLINE | {"run.ins", "run.comment-ref", "para.heading", "list.flat", "list.nested", "table.simple", "table.multi-para-cell", "table.empty-cell",
                                    "table.header-rows", "container.section", "excluded.comment", "unit.multi", "unit.empty"},
         "table_text_in_full_text": False, "unit_kind": "chapter", "max_units": 4, "unit_names": "Chapter ",
-        "opts": {"manifest_reversed": [False, True], "inline_removed": [False, False, "script", "style", "noscript"], "selfclose_empty_cells": [False, True], "chapter_names": [None, None, "odd"]},
+        "opts": {"manifest_reversed": [False, True], "inline_removed": [False, False, "script", "style", "noscript"], "selfclose_empty_cells": [False, True], "chapter_names": [None, None, "odd"], "run_space": [False, True]},
     },
     "txt": {"sep_any": True, "ext": "txt", "render": lambda doc, **kw: simple.render_txt(doc, **kw), "features": {"run.multi", "run.tab", "run.break", "para.heading", "list.flat", "list.nested", "table.simple"},
             "table_text_in_full_text": True, "unit_kind": "single", "max_units": 1},
